@@ -175,12 +175,14 @@ func (n *node) RouteSendAlias(from gen.PID, to gen.Alias, options gen.MessageOpt
 		return connection.SendAlias(from, to, options, message)
 	}
 
+	lib.VerifPoint("send.load", to)
 	value, found := n.aliases.Load(to)
 	if found == false {
 		return gen.ErrProcessUnknown
 	}
 	p := value.(*process)
 
+	lib.VerifPoint("send.alive", p)
 	if alive := p.isAlive(); alive == false {
 		return gen.ErrProcessTerminated
 	}
@@ -212,6 +214,7 @@ func (n *node) RouteSendAlias(from gen.PID, to gen.Alias, options gen.MessageOpt
 		queue = p.mailbox.Main
 	}
 
+	lib.VerifPoint("send.push", p)
 	if ok := queue.Push(qm); ok == false {
 		if p.fallback.Enable == false {
 			return gen.ErrProcessMailboxFull
@@ -1657,6 +1660,7 @@ func (n *node) sendExitMessage(from gen.PID, to gen.PID, message any) error {
 		return gen.ErrProcessUnknown
 	}
 	p := value.(*process)
+	lib.VerifPoint("exit.alive", p)
 
 	if lib.Trace() {
 		n.log.Trace("...sendExitMessage from %s to %s ", from, to)
